@@ -215,6 +215,34 @@ func driveC03(t *testing.T, out *vEmitter) {
 			st{"prefix8colon", a1[:8] + ":/"},
 			st{"short", "ab:/"},
 		)
+		// encodings that a lax base64 decoder maps to the same bytes as A1's nonce: the last of the 43
+		// characters carries two unused bits; CR/LF are skipped by Go's decoder
+		{
+			raw := a1
+			if cb.enc {
+				d, _ := base64.RawURLEncoding.DecodeString(a1)
+				raw = string(d)
+			}
+			if i := strings.Index(raw, ":"); i > 1 {
+				const al = "ABCDEFGHIJKLMNOPQRSTUVWXYZabcdefghijklmnopqrstuvwxyz0123456789-_"
+				last := strings.IndexByte(al, raw[i-1])
+				variants := map[string]string{}
+				if last >= 0 {
+					for k := 1; k < 4; k++ {
+						variants[fmt.Sprintf("alias%d", k)] = raw[:i-1] + string(al[last^k]) + raw[i:]
+					}
+				}
+				variants["lf-mid"] = raw[:5] + "\n" + raw[5:]
+				variants["cr-end"] = raw[:i] + "\r" + raw[i:]
+				variants["pad"] = raw[:i] + "=" + raw[i:]
+				for name, vv := range variants {
+					if cb.enc {
+						vv = base64.RawURLEncoding.EncodeToString([]byte(vv))
+					}
+					states = append(states, st{name, vv})
+				}
+			}
+		}
 		if !cb.enc {
 			// nonce of A1 with another redirect: same login as far as CSRF goes
 			if i := strings.Index(a1, ":"); i > 0 {
@@ -305,6 +333,27 @@ func vCallbackCase(t *testing.T, out *vEmitter, e *vEnv, perReq, enc bool, slabe
 	nonce := ""
 	if owner != nil {
 		nonce = owner.l.Nonce
+	} else {
+		// no login owns this state: let the IdP be as helpful to the adversary as possible and echo
+		// the OIDC nonce of the first presented CSRF cookie that decrypts (the code is then "for"
+		// that login), so that a broken state check is not masked by the later nonce check
+		for _, c := range cookies {
+			parts := strings.Split(c.Value, "|")
+			if len(parts) != 3 {
+				continue
+			}
+			raw, err := base64.URLEncoding.DecodeString(parts[0])
+			if err != nil {
+				continue
+			}
+			if pt, ok := vDecryptCFB(vSecretBytes(e.opts.Cookie.Secret), raw); ok {
+				var rec vCSRFRec
+				if msgpack.Unmarshal(pt, &rec) == nil && len(rec.OIDCNonce) > 0 {
+					nonce = string(vSHA(rec.OIDCNonce))
+					break
+				}
+			}
+		}
 	}
 	if redeemOK {
 		e.idp.stdToken("user@example.com", nonce, nil)
